@@ -167,6 +167,12 @@ def _(c):
         ("assert", "no-second-join-after-a-granted-one", "not $join_granted"),
         ("assert", "join-carries-the-current-member-id", "a3 == self._coordinator.member_id and a0 == self.group_id"),
     ])
+    # ... and what is *sent* is such a request: built for the identity the coordinator has now (after MEMBER_ID_REQUIRED the
+    # retry carries the id the broker handed out - a request object kept from before the reply does not)
+    c.hook("before", "self._coordinator._send_req", [
+        ("assert", "the-join-sent-carries-the-member-id-the-coordinator-has-now", "a0.g_member_id == self._coordinator.member_id"),
+        ("assert", "the-join-sent-advertises-the-protocols-listed", "a0.g_protocols == metadata_list"),
+    ])
     # a granted join is followed by this member's SyncGroup under the identity the reply assigned
     SYNC_ID = ("sync-follows-under-the-identity-the-reply-assigned", "$join_granted and self._coordinator.member_id == response.member_id"
                " and self._coordinator.generation == response.generation_id")
